@@ -2,6 +2,7 @@
 from ..rules import liveness as L
 from ..rules import broken as B
 from ..rules import process as P
+from ..rules import scenario as SC
 
 EXPLANATION = (
     "Static analysis. Decides: completeness of the manager's wait set (result reader, wake-up reader, the sentinel of "
@@ -32,5 +33,8 @@ def run(e, R, tier):
         L.r_drop_resolves,
         L.r_callback_lock,
         L.r_cancel_safe,
+        SC.r_scn_wakeprim,
+        SC.r_scn_manager,
+        SC.r_scn_start,
     ])
     R.trust("multiprocessing.connection.wait returns the ready subset; Process.sentinel becomes ready when the process ends")
